@@ -11,6 +11,11 @@ META = comp_engine.meta("C14")
 def run(ctx):
     comp_engine.run(ctx, "C14", **comp_engine.PARAMS.get("C14", {}))
     comp_engine.extra(ctx, "C14")
+    # "the same backend-issued callback id in every invocation" rests on the operation keeping its identity across
+    # invocations, which run in different processes: ids of nested positions computed under different hash seeds
+    from harness.props import C08
+    C08.check_cross_process(ctx, prop="C14")
+    C08.check_paths(ctx, [[1], [2, 1], [1, 1, 3], [3, 2, 1, 2]], component="ident.callback_positions")
 
 
 def search(ctx):
@@ -18,4 +23,8 @@ def search(ctx):
 
 
 def replay(ctx, rec):
+    if "hashseeds" in rec["case"] or "path" in rec["case"]:
+        from harness.props import C08
+        C08.check_cross_process(ctx, prop="C14")
+        return
     comp_engine.replay(ctx, rec, "C14")
